@@ -101,6 +101,30 @@ theorem idBounds_inside (bs be : Int) (kept : List Child) (h : ∀ c ∈ kept, b
     obtain ⟨c, hc, rfl⟩ := List.mem_map.mp hy
     exact (h c hc).1
 
+theorem idBounds_contains (bs be : Int) (kept : List Child) :
+    (idBounds bs be kept).1 ≤ bs ∧ be ≤ (idBounds bs be kept).2 := by
+  unfold idBounds
+  rw [hullOf_cons]
+  exact ⟨(foldl_min_spec _ bs).2.1, (foldl_max_spec _ be).2.1⟩
+
+/-- kept members lie inside the bounds — or F-C09c is repaired and the source sits on a chunk (then the new
+    parent is clamped) -/
+def IdDomain (src : Source) (bs be : Int) (keptS : List Child) : Prop :=
+  (∀ c ∈ keptS, bs ≤ c.start ∧ c.stop ≤ be) ∨ (repairedC09c = true ∧ src.par.isChunk = true)
+
+theorem idDomain_bounds (src : Source) (bs be : Int) (keptS : List Child) (hlt : bs < be) (ns ne : Int)
+    (hnb : idBounds bs be keptS = (ns, ne)) (h : IdDomain src bs be keptS) :
+    ns < ne ∧ ((bs ≤ ns ∧ ne ≤ be) ∨ Clampable src bs be ns ne) := by
+  rcases h with h | ⟨hC, hK⟩
+  · have := idBounds_inside bs be keptS h
+    rw [hnb] at this
+    simp only [Prod.mk.injEq] at this
+    omega
+  · have := idBounds_contains bs be keptS
+    rw [hnb] at this
+    simp only at this
+    exact ⟨by omega, Or.inr ⟨hC, hK, by omega⟩⟩
+
 /-- the shared tail of every id query: `_return_collection_for_id_queries` on kept members `keptM` that are, as a
     set, the specified `keptS ⊆ src.children`, all inside the bounds when a sequence is attached (the complement is
     F-C09c) -/
@@ -108,7 +132,7 @@ theorem returnForIdQueries_meets (src : Source) (wf : SrcWF src) (bs be : Int) (
     (keptM keptS : List Child) (hperm : keptM.Perm keptS) (hsub : ∀ c ∈ keptS, c ∈ src.children)
     (hnd : (keptS.map Child.guid).Nodup)
     (hne : src.par.hasSeq = true → bs < be)
-    (hin : src.par.hasSeq = true → ∀ c ∈ keptS, bs ≤ c.start ∧ c.stop ≤ be) :
+    (hin : src.par.hasSeq = true → IdDomain src bs be keptS) :
     okIdResult src keptS (toAns (returnForIdQueries src keptM)) = true := by
   unfold okIdResult expectIdResult returnForIdQueries
   rw [specBounds_eq_self hb, needBounds_of hb]
@@ -118,17 +142,8 @@ theorem returnForIdQueries_meets (src : Source) (wf : SrcWF src) (bs be : Int) (
   obtain ⟨ns, ne⟩ := nb
   simp only []
   obtain ⟨r, hr, hrn⟩ := buildNew_meets src wf bs be hb keptM keptS hperm hsub hnd ns ne
-    (fun hs => by
-      have := idBounds_inside bs be keptS (hin hs)
-      rw [hnb] at this
-      simp only [Prod.mk.injEq] at this
-      have := hne hs
-      omega)
-    (fun hs => by
-      have := idBounds_inside bs be keptS (hin hs)
-      rw [hnb] at this
-      simp only [Prod.mk.injEq] at this
-      omega)
+    (fun hs => (idDomain_bounds src bs be keptS (hne hs) ns ne hnb (hin hs)).1)
+    (fun hs => (idDomain_bounds src bs be keptS (hne hs) ns ne hnb (hin hs)).2)
   rw [hr]
   simp only [toAns, meets, beq_iff_eq]
   exact hrn
@@ -161,23 +176,23 @@ theorem keptByGuids_perm (src : Source) (wf : SrcWF src) (ids : List Nat) (hids 
 /-- T3a: `query_by_guids` returns exactly { c | c.guid ∈ ids } -/
 theorem queryByGuids_meets (src : Source) (wf : SrcWF src) (ids : List Nat) (hids : ids.Nodup) (bs be : Int)
     (hb : selfBounds src = some (bs, be)) (hne : src.par.hasSeq = true → bs < be)
-    (hin : src.par.hasSeq = true → ∀ c ∈ src.children, bs ≤ c.start ∧ c.stop ≤ be) :
+    (hin : src.par.hasSeq = true → IdDomain src bs be src.children) :
     okQueryByGuids src ids (toAns (queryByGuids src ids)) = true := by
   unfold okQueryByGuids queryByGuids
   exact returnForIdQueries_meets src wf bs be hb _ _ (keptByGuids_perm src wf ids hids)
     (fun c hc => (List.mem_filter.mp hc).1) (nodup_guid_filter wf.guids _) hne
-    (fun hs c hc => hin hs c (List.mem_filter.mp hc).1)
+    (fun hs => (hin hs).imp (fun h c hc => h c (List.mem_filter.mp hc).1) id)
 
 /-! ### `query_by_feature_identifiers` -/
 
 /-- T3b: `query_by_feature_identifiers` returns exactly { c | c.identifiers ∩ ids ≠ ∅ } -/
 theorem queryByIdentifiers_meets (src : Source) (wf : SrcWF src) (ids : List (List Char)) (bs be : Int)
     (hb : selfBounds src = some (bs, be)) (hne : src.par.hasSeq = true → bs < be)
-    (hin : src.par.hasSeq = true → ∀ c ∈ src.children, bs ≤ c.start ∧ c.stop ≤ be) :
+    (hin : src.par.hasSeq = true → IdDomain src bs be src.children) :
     okQueryByIdentifiers src ids (toAns (queryByIdentifiers src ids)) = true := by
   unfold okQueryByIdentifiers queryByIdentifiers keptByIdentifiers
   exact returnForIdQueries_meets src wf bs be hb _ _ ((iterChildren_perm src).filter _)
     (fun c hc => (List.mem_filter.mp hc).1) (nodup_guid_filter wf.guids _) hne
-    (fun hs c hc => hin hs c (List.mem_filter.mp hc).1)
+    (fun hs => (hin hs).imp (fun h c hc => h c (List.mem_filter.mp hc).1) id)
 
 end BioCantor.Proofs.Query
